@@ -122,17 +122,20 @@ claim("C09", "call-graph reachability + panic-site inventory; interprocedural ty
       DECIDES + " Stack depth on nested input, termination of the formatter, and totality of semantic/lowering diagnostics on garbage are not decided.",
       "trusted: rustc MIR, fact dumper; for (b) calls that take &mut Parser outside the non-consuming list are assumed to consume; for (c) the token window moves only in Parser::take_raw/advance and the character cursor only in Lexer::take (R10.1), a call that cannot be interpreted is reported; class-U inventory rows carry no safety claim",
       "DESIGN.md section 4, C09")
-claim("C10", "field-write discipline + linear-use dataflow + who-may-call rules on MIR; width/children provenance over all green-node constructors; flow-sensitive must-hand-on search for consumed green nodes",
+claim("C10", "field-write discipline + linear-use dataflow + who-may-call rules on MIR; width/children provenance over all green-node constructors; flow-sensitive must-hand-on search for consumed green nodes; interprocedural may-pending / must-flush summaries of the pending-trivia queue",
       "No API of the lexer, parser or green tree can drop, duplicate or reorder source text: the lexer cursor fields are written only in new / "
       "take / consume_text_span with the prescribed values; every consumed span becomes token text; Parser::advance is called only by take_raw "
       "and unglue and every field of a taken terminal reaches add_trivia_to_terminal or the pending trivia; pending trivia is append-only and "
       "taken only when attached (prepended to the terminal's own leading trivia); every GreenNodeDetails::Node has width = sum over exactly "
       "the children it stores; the parser's green caches are keyed by the exact text; every green node a parser routine obtains from a "
       "token-consuming call or receives as a parameter is handed on (to a constructor, container, parser routine, skip helper or the caller) on "
-      "every feasible path to a return; a helper that re-roots a child of an existing node carries, or proves empty, every sibling." + DECIDES +
-      " That each node is handed on once and in source order, and that the parser's choice of where to attach trivia preserves order in every "
-      "recovery scenario beyond these APIs, is not decided. Two genuine losses found by these rules were repaired in /repo (fix: commits 273025f, "
-      "a31d98e); one (`pub` before an inline macro item) is a recorded known finding.",
+      "every feasible path to a return, and on none twice; a helper that re-roots a child of an existing node carries, or proves empty, every sibling; "
+      "a node taken earlier and pushed on the pending trivia later (a delayed skip) is pushed while no trivia consumed after its first token "
+      "can still be pending, and no node taken after it is kept in the tree (summaries of what each parser routine may leave pending, per "
+      "returned variant, and which routines always flush)." + DECIDES +
+      " The order of trivia inside callbacks and take_doc's split are not decided. Two genuine losses found by these rules were repaired in /repo "
+      "(fix: commits 273025f, a31d98e); nine are recorded known findings (`pub` before an inline macro item, two path classes; seven delayed "
+      "skips that re-attach skipped text out of source order, e.g. `b::fn x;`).",
       "trusted: rustc MIR, fact dumper; assumes TextSpan::take slices exactly the addressed text and Vec::extend/push append in order",
       "DESIGN.md section 4, C10")
 claim("C11", "path rules on MIR: must-pass-through inside loops, control dependence on kind-equality tests, option-flag gating",
